@@ -161,6 +161,45 @@ pub fn check_run(i: u64, rc: &mut RCase) -> Result<(), Failure> {
     judge(&src, &format!("repeated_fragment:{:?}x{}", f, n), rc)
 }
 
+const CHAIN_LENGTHS: [usize; 7] = [1, 4, 8, 16, 24, 32, 40];
+
+/// enumerated: chains of aliases (declared forwards or backwards, ending in a record, a primitive, an undefined
+/// name or in themselves) next to recursive types of fan-out 0..3 and chains of locals - analysis time must
+/// not depend on the chain length other than linearly. A blow-up shows as a slow case (exit 2).
+pub fn check_chain(i: u64, rc: &mut RCase) -> Result<(), Failure> {
+    let mut k = i as usize;
+    let len = CHAIN_LENGTHS[k % CHAIN_LENGTHS.len()];
+    k /= CHAIN_LENGTHS.len();
+    let fan = k % 4;
+    k /= 4;
+    let end = k % 4;
+    k /= 4;
+    let backwards = k % 2 == 1;
+    k /= 2;
+    let used = k % 2 == 1;
+    let mut defs: Vec<String> = (0..len).map(|j| format!("type A{} = A{};\n", j, j + 1)).collect();
+    defs.push(match end {
+        0 => format!("type A{} = Base;\n", len),
+        1 => format!("type A{} = Int;\n", len),
+        2 => format!("type A{} = Nowhere;\n", len),
+        _ => format!("type A{} = A0;\n", len),
+    });
+    if backwards {
+        defs.reverse();
+    }
+    let mut src = String::from("party P;\ntype Base { x: Int, }\n");
+    if fan > 0 {
+        let fields: String = (0..fan).map(|f| format!(" f{}: Tree,", f)).collect();
+        src.push_str(&format!("type Tree {{{} leaf: Int, }}\n", fields));
+    }
+    src.push_str(&defs.concat());
+    if used {
+        src.push_str("tx t(a: Int) {\n  output {\n    to: P,\n    amount: Ada(a),\n    datum: A0 { x: a, },\n  }\n}\n");
+    }
+    rc.label("definition_chains");
+    judge(&src, &format!("definition_chain:len={},fan={},end={},backwards={},used={}", len, fan, end, backwards, used), rc)
+}
+
 pub fn check_nesting(kind: usize, depth: usize, rc: &mut RCase) -> Result<(), Failure> {
     let (src, name) = fegen::nested(kind, depth);
     rc.label(&format!("nesting:{}", name));
@@ -171,7 +210,7 @@ pub fn run(tier: Tier, seed: u64) -> Report {
     let mut r = Report::new("C12", tier, seed);
     r.rule = "strings expanded from the grammar file itself (pest_meta, depth 4..12), token-level mutations (delete, \
               duplicate, swap, splice, literal stretching, odd tokens, truncate; 1-3 rounds) of the repository's \
-              examples and of generated programs, every bracketing construct nested 1..64 deep, and runs of every grammar literal (read from the grammar file) repeated 8..64 times - unbalanced openers, comment delimiters, operators, keywords - alone, after a program and inside a tx body. Parsing runs under \
+              examples and of generated programs, every bracketing construct nested 1..64 deep, and runs of every grammar literal (read from the grammar file) repeated 8..64 times - unbalanced openers, comment delimiters, operators, keywords - alone, after a program and inside a tx body; chains of 1..40 aliases (forwards, backwards, ending in a record, a primitive, an undefined name or themselves) next to recursive types of fan-out 0..3. Parsing runs under \
               pest's rule-call limit (4*10^6) as the deterministic non-termination test. distinct = hash of the text; \
               non-trivial = the text parses, or fails after offset 0 in a text containing a tx"
         .into();
@@ -188,6 +227,7 @@ pub fn run(tier: Tier, seed: u64) -> Report {
     r.enumerate("nesting", 12 * 64, &|i, rc| check_nesting((i % 12) as usize, 1 + (i / 12) as usize, rc));
     let runs = (run_fragments().len() * RUN_LENGTHS.len() * RUN_SEPS.len() * 4) as u64;
     r.enumerate("repeated_fragments", runs, &|i, rc| check_run(i, rc));
+    r.enumerate("definition_chains", (CHAIN_LENGTHS.len() * 4 * 4 * 2 * 2) as u64, &|i, rc| check_chain(i, rc));
     r.explore("grammar_derived", tier.pick(60_000, 2_000_000), 700, &|t, rc| check_grammar(t, rc));
     r.explore("token_mutation", tier.pick(60_000, 2_000_000), 500, &|t, rc| check_mutation(t, rc));
     r
@@ -205,6 +245,10 @@ pub fn replay(phase: &str, tape: &[u16], seed: u64) -> Report {
         "repeated_fragments" => {
             let i = ((tape[2] as u64) << 16) | tape[3] as u64;
             r.enumerate(phase, 1, &|_, rc| check_run(i, rc));
+        }
+        "definition_chains" => {
+            let i = ((tape[2] as u64) << 16) | tape[3] as u64;
+            r.enumerate(phase, 1, &|_, rc| check_chain(i, rc));
         }
         "examples_unmodified" => {
             let i = tape[3] as usize;
